@@ -46,6 +46,10 @@ def _setup_worker(need_jax):
     # some nifty code paths print to stdout (e.g. MatrixProductOperator.apply); keep the
     # check's stdout reserved for the runner's report
     sys.stdout = open(os.devnull, "w")
+    import logging
+    import warnings
+    warnings.filterwarnings("ignore")
+    logging.getLogger("NIFTy").setLevel(logging.CRITICAL)
     if need_jax:
         import jax
         jax.config.update("jax_enable_x64", True)
